@@ -631,6 +631,27 @@ def _check_name_for_reserved_words(obj, source_file_name, errors, context_name):
         )
 
 
+def _check_that_constant_field_start_is_not_negative(field, source_file_name, errors):
+    """Checks that a physical field does not start before its structure."""
+    if ir_util.field_is_virtual(field):
+        return
+    start_type = field.location.start.type
+    if (
+        start_type.which_type == "integer"
+        and ir_util.is_constant_type(start_type)
+        and int(start_type.integer.modular_value) < 0
+    ):
+        errors.append(
+            [
+                error.error(
+                    source_file_name,
+                    field.location.start.source_location,
+                    "Field start must not be negative.",
+                )
+            ]
+        )
+
+
 def _check_field_name_for_reserved_words(field, source_file_name, errors):
     return _check_name_for_reserved_words(
         field, source_file_name, errors, "a field name"
@@ -855,6 +876,12 @@ def check_constraints(ir):
         ir,
         [ir_data.Structure, ir_data.Type],
         _check_type_requirements_for_field,
+        parameters={"errors": errors},
+    )
+    traverse_ir.fast_traverse_ir_top_down(
+        ir,
+        [ir_data.Field],
+        _check_that_constant_field_start_is_not_negative,
         parameters={"errors": errors},
     )
     traverse_ir.fast_traverse_ir_top_down(
